@@ -258,6 +258,9 @@ pub struct Gen {
     /// so that the same number meets both GLSL.std.450 and OpenCL.std back to back)
     pub ext_imports: Vec<u32>,
     pub last_ext_number: Option<u32>,
+    /// edge mode: the first 61 result ids are handed out through an affine bijection, so that
+    /// definition order and numeric order differ
+    pub perm: Option<(u32, u32)>,
 }
 
 thread_local! {
@@ -290,6 +293,7 @@ impl Gen {
             edge_used: vec![],
             ext_imports: vec![],
             last_ext_number: None,
+            perm: None,
         }
     }
     /// fresh result id; in edge-id mode occasionally an extreme value not used before
@@ -301,6 +305,12 @@ impl Gen {
                 self.edge_used.push(e);
                 return e;
             }
+        }
+        if self.edge_ids {
+            let (a, c) = *self.perm.get_or_insert_with(|| if cs.bool() { (1, 0) } else { (1 + cs.below(60) as u32, cs.below(61) as u32) });
+            let k = self.next_id - 1;
+            self.next_id += 1;
+            return if k < 61 { 1 + (k * a + c) % 61 } else { k + 1 };
         }
         self.fresh()
     }
